@@ -151,11 +151,20 @@ def run(R):
                 if 'p' in st and not st['p'].get('pr') and 'use' in st['rv'] and 'k' in st['rv']['use'] and isinstance(st['rv']['use']['k'].get('v'), bool):
                     if pf.tystr(pf.local_tys[st['p']['l']]) == 'bool' and pf.name_of(st['p']['l']):
                         flag_locals.add(st['p']['l'])
+        # plain copies of a flag (a parameter of a helper that was handed the flag) read the flag
+        flag_alias = {}
+        for l_, ds_ in pf.defs().items():
+            if l_ in flag_locals or len(ds_) != 1 or ds_[0][0] != 'stmt':
+                continue
+            rv_ = ds_[0][3]
+            src_ = (rv_.get('use') or {}).get('cp') or (rv_.get('use') or {}).get('mv') if 'use' in rv_ else None
+            if src_ is not None and not src_.get('pr') and src_['l'] in flag_locals and pf.tystr(pf.local_tys[l_]) == 'bool':
+                flag_alias[l_] = src_['l']
         rem_locals = {t['dest']['l'] for bb, t in pf.calls(name='has_remaining') if 'decoded' in show(pf.origin(t['args'][0]))}
         empty_locals = {t['dest']['l'] for bb, t in pf.calls(name='is_empty') if 'decoded' in show(pf.origin(t['args'][0]))}
 
         def step_stmt(st, state):
-            ended, rem, flags = state
+            ended, rem, flags = state[:3]
             if 'p' in st and not st['p'].get('pr') and st['p']['l'] in flag_locals and 'use' in st['rv'] and 'k' in st['rv']['use']:
                 v = st['rv']['use']['k'].get('v')
                 if isinstance(v, bool):
@@ -177,7 +186,9 @@ def run(R):
             return None
 
         inp = {}
-        init = ('F', '?', tuple(sorted((l, 'F') for l in flag_locals)))
+        # 4th component: what is known about enum-valued locals on the way (variant built / matched), so that an intermediate
+        # outcome value (e.g. a private NeedMore/Item enum) correlates with the flag test that produced it
+        init = ('F', '?', tuple(sorted((l, 'F') for l in flag_locals)), frozenset())
         # flags' initial values: take what was assigned before the loop (dominating assignment), default F
         inp[entry] = {init}
         work = deque([entry])
@@ -187,26 +198,43 @@ def run(R):
             bb = work.popleft()
             states = inp[bb]
             out_states = set()
+            t = pf.term(bb)
+            feas_of = {}
             for state in states:
-                s2 = state
+                s2 = state[:3]
                 for st in pf.blocks[bb]['stmts']:
                     s2 = step_stmt(st, s2)
+                try:
+                    pe = pf._ps_edges(bb, dict(state[3]))
+                except Exception:
+                    pe = [(x_, {}) for x_ in pf.succs(bb)]
+                s2 = s2 + (state[3],)
                 out_states.add(s2)
-            t = pf.term(bb)
+                feas_of[s2] = {x_: frozenset((k_, v_) for k_, v_ in kn_.items() if isinstance(v_, tuple) and all(not isinstance(e_, (dict, list)) for e_ in v_)) for x_, kn_ in pe}
             if t['k'] == 'call' and t.get('name') == 'poll_decode' and bb == lb:
                 for s in states:
                     if s[0] == 'T' and not first:
-                        viol_repoll.append(s)
-                out_states = {(s[0], '?', s[2]) for s in out_states}
+                        viol_repoll.append(s[:3])
+                out2 = set()
+                for s in out_states:
+                    s3 = (s[0], '?', s[2], s[3])
+                    feas_of[s3] = feas_of[s]
+                    out2.add(s3)
+                out_states = out2
             first = False
             succ_states = {}
             if t['k'] == 'switch':
                 nv = none_value(bb)
                 on = t['on']
                 onl = mirlib.root_local(pf, on) if ('cp' in on or 'mv' in on) else None
+                onl = flag_alias.get(onl, onl)
                 for tgt, vals in pf.switch_edges(bb).items():
                     res = set()
-                    for (ended, rem, flags) in out_states:
+                    for st4 in out_states:
+                        (ended, rem, flags, know_) = st4
+                        if tgt not in feas_of[st4]:
+                            continue  # the value switched on is known on this path
+                        know2_ = feas_of[st4][tgt]
                         fl = dict(flags)
                         truth = None
                         if vals == [0]:
@@ -230,11 +258,11 @@ def run(R):
                         if o[0] == 'un' and o[1] == 'Not' and o[2][0] == 'local' and o[2][1] in flag_locals and truth is not None:
                             if fl.get(o[2][1]) != ('F' if truth else 'T'):
                                 continue
-                        res.add((ended, rem, tuple(sorted(fl.items()))))
+                        res.add((ended, rem, tuple(sorted(fl.items())), know2_))
                     succ_states[tgt] = res
             else:
                 for tgt in pf.succs(bb):
-                    succ_states[tgt] = set(out_states)
+                    succ_states[tgt] = {st4[:3] + (feas_of[st4][tgt],) for st4 in out_states if tgt in feas_of[st4]}
             for tgt, res in succ_states.items():
                 if not res:
                     continue
@@ -250,29 +278,20 @@ def run(R):
         # clean ends
         n_end = 0
         fadt = None
-        for bb in writers_of(pf, 0):
-            if bb not in inp:
-                continue
-            for w in block_writes(pf, bb, 0):
-                if not (w[0] == 'variant' and w[2] == 'Ready'):
-                    continue
-                val = strip_refs(w[3][0])
-                kinds = []
-                if val[0] == 'agg' and val[1].get('variant') == 'None':
-                    kinds = ['none']
-                elif val[0] == 'phi':
-                    kinds = ['none' if (strip_refs(x)[0] == 'agg' and strip_refs(x)[1].get('variant') == 'None') else 'some' for x in val[1]]
-                # trailers.take().map(|t| Ok(Frame::trailers(t))): the stored trailers if any, else the clean end
-                flush_or_end = is_call(val, name='map') and is_call(strip_refs(val[2][0]), name='take') and mentions_field(val[2][0], 'trailers')
-                if flush_or_end:
-                    kinds = ['none']
-                if 'none' not in kinds:
-                    continue
-                # locate the block(s) that produce the None value
-                srcs = [bb]
-                if val[0] == 'phi':
-                    loc = mirlib.root_local(pf, pf.blocks[bb]['stmts'][-1]['rv']['ops'][0]) if pf.blocks[bb]['stmts'] and 'agg' in pf.blocks[bb]['stmts'][-1].get('rv', {}) else None
-                    srcs = [wb for wb in writers_of(pf, loc) if any(x[0] == 'variant' and x[2] == 'None' for x in block_writes(pf, wb, loc))] if loc is not None else [bb]
+        # every place the end of the stream is produced: a None of the item type Option<Result<Frame<..>, Status>> (returned directly,
+        # through a local, or wrapped in an intermediate outcome value), or trailers.take().map(..) which is None when nothing is stored
+        end_sites = []
+        for bb_, i_, p_, a_, ops_ in mirlib.aggregates(pf, 'option::Option', 'None'):
+            if any('Result<' in g_ and 'Frame<' in g_ for g_ in (a_.get('ga') or [])):
+                end_sites.append((bb_, False))
+        for bb_, t_ in pf.calls(name='map'):
+            if 'Option' in (t_.get('fn') or '') and is_call(strip_refs(pf.origin(t_['args'][0])), name='take') and mentions_field(pf.origin(t_['args'][0]), 'trailers') and any('Frame<' in g_ for g_ in (t_.get('ga') or [])):
+                end_sites.append((bb_, True))
+        for sb0, flush_or_end in end_sites:
+            if True:
+                srcs = [sb0]
+                if True:
+                    pass
                 for sb in srcs:
                     if sb not in inp:
                         continue
